@@ -4,6 +4,9 @@ package simgrpc
 
 import (
 	"context"
+	"runtime"
+
+	"github.com/jhump/protoreflect/grpcreflect"
 
 	"google.golang.org/grpc"
 
@@ -13,8 +16,21 @@ import (
 // DialContext replaces grpc.DialContext: same call plus a context dialer into simnet
 // (a pass-through to the real network when no simulated network is installed).
 func DialContext(ctx context.Context, target string, opts ...grpc.DialOption) (*grpc.ClientConn, error) {
-	if simnet.Cur() != nil {
-		opts = append(opts, grpc.WithContextDialer(simnet.DialFunc))
+	if n := simnet.Cur(); n != nil {
+		// the connection identity is fixed now, by the calling task, not when grpc-go's goroutine dials
+		opts = append(opts, grpc.WithContextDialer(n.TicketDialer(n.Ticket())))
 	}
 	return grpc.DialContext(ctx, target, opts...)
+}
+
+// NewReflectClientAuto replaces grpcreflect.NewClientAuto. The reflection client installs a finalizer that
+// resets its stream; run by the garbage collector's goroutine it would touch channels of a (finished) synctest
+// bubble from outside, which the runtime treats as fatal. Pandora closes the reflection connection itself, so
+// under simulation the finalizer is dropped.
+func NewReflectClientAuto(ctx context.Context, cc grpc.ClientConnInterface) *grpcreflect.Client {
+	c := grpcreflect.NewClientAuto(ctx, cc)
+	if simnet.Cur() != nil {
+		runtime.SetFinalizer(c, nil)
+	}
+	return c
 }
